@@ -13,7 +13,8 @@ from rl4co.models.nn.ops import Normalization, TransformerFFN
 
 def apply_weights_and_combine(dots, v, tanh_clipping=0):
     # scale to avoid numerical underflow
-    logits = dots / dots.std()
+    # per instance: a statistic over the whole batch would make an instance's embedding depend on its batch-mates
+    logits = dots / dots.std(dim=tuple(range(1, dots.dim())), keepdim=True)
     if tanh_clipping > 0:
         # tanh clipping to avoid explosions
         logits = torch.tanh(logits) * tanh_clipping
